@@ -136,7 +136,14 @@ GS('dc.dt_conv_to_ywd', 'date-core', 'dt_conv_to_ywd', DATE, TSPLIT, call='dt_co
 GS('dc.dt_conv_to_yd', 'date-core', 'dt_conv_to_yd', DATE, TSPLIT, call='dt_conv_to_yd(d)', ret='dt_yd_t', replace=sorted(set(leaves('yd'))) + UNR('__ummulqura_to_ldn', '__jdn_to_daisy'), solvers=SV, **D_IN)
 G('dc.dt_dfixup.valid', 'date-core', 'dt_dfixup', DATE, call='dt_dfixup(d)', ret='struct dt_d_s',
   replace=['__get_mdays', '__get_mcnt', '__get_isowk', '__get_ydays'] + UNR('__bizda_fixup', '__ummulqura_fixup'), solvers=SV, **D_IN)
-GS('dc.dt_dconv', 'date-core', 'dt_dconv', DATE, [(t[3:] + '.' + n[3:], {'in_tgt': t, 'in_typ': n}) for t in ('DT_YMD', 'DT_YMCW', 'DT_YWD', 'DT_YD', 'DT_DAISY', 'DT_LDN', 'DT_MDN') for n in ('DT_YMD', 'DT_YMCW', 'DT_YWD', 'DT_YD', 'DT_DAISY', 'DT_LDN', 'DT_MDN')], ins=[(U, 'in_tgt'), (U, 'in_typ'), ('uint32_t', 'in_u')],
-  setup='struct dt_d_s d = {DT_DUNK}; d.typ = (dt_dtyp_t)in_typ; d.u = in_u;', call='dt_dconv((dt_dtyp_t)in_tgt, d)', ret='struct dt_d_s',
-  replace=['dt_dfixup', 'dt_conv_to_daisy', 'dt_conv_to_ymd', 'dt_conv_to_ymcw', 'dt_conv_to_ywd', 'dt_conv_to_yd', '__daisy_to_ldn', '__daisy_to_mdn'] + UNR('__daisy_to_jdn', 'dt_conv_to_bizda', 'dt_conv_to_ummulqura'),
-  solvers=SV, sweep={'in_typ': 'RND % 12', 'in_tgt': 'RND % 12'})
+TYPS = ('DT_YMD', 'DT_YMCW', 'DT_YWD', 'DT_YD', 'DT_DAISY', 'DT_LDN', 'DT_MDN')
+QUICK_PAIRS = {('DT_YWD', 'DT_YMD'), ('DT_YMD', 'DT_YWD'), ('DT_DAISY', 'DT_YMCW'), ('DT_YMCW', 'DT_DAISY'), ('DT_YMD', 'DT_YD'), ('DT_YD', 'DT_LDN'), ('DT_MDN', 'DT_YMD')}
+for t in TYPS:
+    for n in TYPS:
+        # dt_dconv = dt_dfixup (inlined here, its leaves replaced) + dispatch to dt_conv_to_* (replaced by contract)
+        G('dc.dt_dconv.%s.%s' % (t[3:], n[3:]), 'date-core', 'dt_dconv', DATE, ins=[(U, 'in_tgt'), (U, 'in_typ'), ('uint32_t', 'in_u')],
+          fix={'in_tgt': t, 'in_typ': n},
+          setup='struct dt_d_s d = {DT_DUNK}; d.typ = (dt_dtyp_t)in_typ; d.u = in_u;', call='dt_dconv((dt_dtyp_t)in_tgt, d)', ret='struct dt_d_s',
+          replace=['__get_mdays', '__get_mcnt', '__get_isowk', '__get_ydays', 'dt_conv_to_daisy', 'dt_conv_to_ymd', 'dt_conv_to_ymcw', 'dt_conv_to_ywd', 'dt_conv_to_yd',
+                   '__daisy_to_ldn', '__daisy_to_mdn'] + UNR('__daisy_to_jdn', 'dt_conv_to_bizda', 'dt_conv_to_ummulqura', '__bizda_fixup', '__ummulqura_fixup'),
+          solvers=SV, timeout=600, tier='quick' if (t, n) in QUICK_PAIRS else 'thorough', sweep={'in_u': 'RND'})
